@@ -128,7 +128,7 @@ theorem cstrSpec_encode (cs : List Char) : cstrSpec (encode cs) = encode (cstrTe
 /-- `into_cstr` of a growable string holding `cs`: returns `cstrSpec` of the contents; the string
     (the `BumpBox<str>` the bytes are taken from) still holds valid UTF-8 -/
 theorem intoCstr_spec (s : State) (cs : List Char) (h : Holds s cs) :
-    ∃ s', intoCstr false s = .ok (cstrSpec s.bytes) s' ∧ Holds s' (cstrText cs) ∧ s'.bytes = cstrSpec s.bytes := by
+    ∃ s', intoCstr .exact s = .ok (cstrSpec s.bytes) s' ∧ Holds s' (cstrText cs) ∧ s'.bytes = cstrSpec s.bytes := by
   unfold intoCstr
   cases hn : nulPos s.bytes with
   | some n =>
@@ -143,7 +143,7 @@ theorem intoCstr_spec (s : State) (cs : List Char) (h : Holds s cs) :
     · rw [hb, h.2, cstrSpec_encode]
   | none =>
     simp only
-    obtain ⟨s', hp, hh⟩ := (push_spec false s (Char.ofNat 0) cs h).growable
+    obtain ⟨s', hp, hh⟩ := (push_spec .exact s (Char.ofNat 0) cs h).growable rfl
     rw [hp]
     simp only
     have hb : s'.bytes = cstrSpec s.bytes := by
@@ -164,7 +164,7 @@ theorem allocCstrFmt_go (ps : List (List Char)) (s : State) (cs : List Char) (h 
   induction ps generalizing s cs with
   | nil => exact ⟨s, rfl, by simpa using h⟩
   | cons p ps ih =>
-    obtain ⟨s1, hp, hh⟩ := (pushStr_spec false s p cs h).growable
+    obtain ⟨s1, hp, hh⟩ := (pushStr_spec .exact s p cs h).growable rfl
     simp only [List.map_cons, allocCstrFmt.go, hp]
     obtain ⟨s', hg, hh'⟩ := ih s1 (cs ++ p) hh
     exact ⟨s', hg, by simpa using hh'⟩
